@@ -31,7 +31,7 @@ LEVEL_TEXT = ('Theorems (Props/C09.v): the reference decoder accepts exactly the
               'C09_one3d_reader_whole_file_exact (on valid files the reader succeeds iff there are >= 2 steps), C09_one3d_unchanged_stamp_raises, '
               'C09_one3d_single_step_refuted (vm_compute witness = finding met-single-step, region 11). Tie H: constructor OD of Corr/C09.v. '
               'TEMPERATURE and HEIGHT/PRESSURE (Model/TempHp.v, Proofs/TempHpProofs.v; layered record files over the One3d codec; both Memmap readers hand-modelled incl. the for-loop fall-through, the lazy reshapes and the marker check): C09_temperature_dec_enc, C09_heightpres_dec_enc, C09_temperature_reader_presents_content, '
-              'C09_heightpres_reader_presents_content, C09_temperature_single_step_refuted, C09_heightpres_single_step_refuted (region 11). '
+              'C09_heightpres_reader_presents_content, C09_temperature_single_step_refuted, C09_heightpres_single_step_refuted (single-step files raise: region 11). '
               'Tie H: constructors TD / HD of Corr/C09.v.')
 LEVEL_NOTE = ('Trusted: Coq kernel+vm_compute, py2coq, the harness. CAMx met formats, landuse and bpch: record framing proved generically, layouts compared by '
               'correspondence only (see evidence distribution).')
